@@ -517,6 +517,11 @@ func NewUniverse() *Universe {
 	u := &Universe{datatypes: map[Sort]*Datatype{}, funcs: map[string]*FuncDecl{}, axioms: map[string][]*Term{}, usorts: map[Sort]bool{}}
 	u.usorts[SStr] = true
 	u.usorts[SIface] = true
+	u.Declare("sidx", SInt, SInt, SInt)
+	{
+		o, i := Var("so", SInt), Var("sx", SInt)
+		u.AddAxiom("sidx", Forall([]*Term{o, i}, Eq(App("sidx", SInt, o, i), App("+", SInt, o, i)), []*Term{App("sidx", SInt, o, i)}))
+	}
 	u.AddDatatype(&Datatype{Name: SSlice, Ctor: "mk_slice", Fields: []DTField{{"sl_arr", SInt}, {"sl_off", SInt}, {"sl_len", SInt}, {"sl_cap", SInt}}})
 	return u
 }
